@@ -274,6 +274,23 @@ register_b09(
     lean_extra=["CocoVerif.Model.Cli"],
 )
 
+import suite_det  # noqa: E402
+
+PROPS["C12"] = {
+    "lean": ["CocoVerif.Props.C12"],
+    "lean_extra": B09_LEAN_EXTRA + ["CocoVerif.Props.Lemmas.ProcBank"],
+    "suites": [{"name": "det", "relevant": lambda c: True, "oracle": suite_det.oracle},
+               {"name": "b09", "relevant": b09_any}],
+    "search": None,
+    "rule": "det: programs with several implicit arrays, several string sizes and several runtime dependencies (fixed probes + "
+            "generated), all with the same procedure name, plus decoder inputs, each converted twice in each of 8 (thorough: 32) "
+            "fresh interpreters with different PYTHONHASHSEED and an own shuffled order; every run must give the single output the "
+            "model gives; b09: the transpiler correspondence suite; distinct = distinct request",
+    "trusted": B09_TRUSTED + ["runtime behaviour the model cannot exhibit (hash seeds, process boundaries, module-level state "
+                              "surviving between calls) is exercised by the det suite, not proved"],
+    "assumptions": [],
+}
+
 import suite_lib  # noqa: E402
 
 PROPS["C20"] = {
@@ -341,6 +358,17 @@ def replay_witness(f):
         case = {"fmt": parts[1], "kind": w.get("kind", "valid"), "req": w["request"], "data": unhex(parts[-1])}
         case.update(w.get("case", {}))
         return OI.ORACLES[w.get("oracle", f["property"])](case, impl)
+    if isinstance(w, dict) and w.get("type") == "det":
+        import os
+        import subprocess
+        from common import PY, REPO
+        outs = set()
+        code = ("import sys; sys.path.insert(0, %r); from coco.b09.compiler import convert; "
+                "sys.stdout.write(convert(%r, add_standard_prefix=False))" % (REPO, w["text"]))
+        for seed_ in range(6):
+            env = dict(os.environ, PYTHONHASHSEED=str(seed_))
+            outs.add(subprocess.run([PY, "-c", code], capture_output=True, text=True, env=env).stdout)
+        return None if len(outs) == 1 else f"{len(outs)} different outputs under PYTHONHASHSEED 0..5"
     if isinstance(w, dict) and w.get("type") == "lib":
         from common import run_driver
         ans = run_driver([w["request"]])[0]
